@@ -43,9 +43,10 @@ def sym_value(cx, engine, st, label="v", depth=1):
     VAL = cx.enums["Value"]
     NN = cx.enums["N"]
     d = z3.BitVec("%s_kind_%d" % (label, next(engine.fresh)), 64)
-    engine.solver.add(z3.ULT(d, bv(len(VAL))))
     nd = z3.BitVec("%s_numk_%d" % (label, next(engine.fresh)), 64)
-    engine.solver.add(z3.ULT(nd, bv(len(NN))))
+    for c in (z3.ULT(d, bv(len(VAL))), z3.ULT(nd, bv(len(NN)))):
+        engine.solver.add(c)
+        st.pc.append(c)
     num = Agg("struct", "Number", [EnumV("N", nd, {NN.index("PosInt"): [engine.sym_int("u64", label + "_u")],
                                                   NN.index("NegInt"): [engine.sym_int("i64", label + "_i")],
                                                   NN.index("Float"): [engine.sym_f64(label + "_f")]})])
